@@ -1,4 +1,5 @@
 import PyecoreModel.Lemmas.Notif
+import PyecoreModel.Lemmas.SliceSpec
 /-!
 # C05 — Observers can mirror the model from notifications alone
 
@@ -292,6 +293,20 @@ otherwise reports what leaves and what comes in; in both cases the mirror ends w
 theorem C05_ext_slice_del {α : Type} [DecidableEq α] (l m : List α) (a b k : Nat) (h : Same .list l m) :
     Same .list (delExtStep l a b k).items (replay false m (delExtStep l a b k).notifs) :=
   delExt_mirror l m a b k h
+
+/-- **The slice is Python's slice**: the positions `inExt a b k` that the two theorems around this one speak of are exactly the
+positions `slice(a, b, k).indices(len(l))` visits (CPython's specification, `Py.slicePositions`), and what the deletion
+leaves is `del l[a:b:k]` of that specification — for every list, start, stop and positive step. -/
+theorem C05_ext_positions_spec (n a b k : Nat) (hk : 0 < k) (j : Nat) :
+    j ∈ slicePositions n (some (a : Int)) (some (b : Int)) (k : Int) ↔ (j < n ∧ inExt a b k j = true) :=
+  mem_slicePositions_pos n a b k hk j
+
+theorem C05_ext_del_spec {α : Type} (l : List α) (a b k : Nat) (hk : 0 < k) :
+    (delExtStep l a b k).items = pyDelSlice l (some (a : Int)) (some (b : Int)) (k : Int) :=
+  (pyDelSlice_eq_pickAt l a b k hk).symm
+
+example : slicePositions 7 (some 1) (some 6) 2 = [1, 3, 5] ∧ (delExtStep [10, 11, 12, 13, 14, 15, 16] 1 6 2).items = [10, 12, 14, 16] := by
+  decide
 
 theorem C05_ext_slice_set {α : Type} [DecidableEq α] (l m : List α) (a b k : Nat) (ys : List α) (h : Same .list l m) :
     Same .list (setExtStep l a b k ys).items (replay false m (setExtStep l a b k ys).notifs) :=
